@@ -199,9 +199,12 @@ pub struct ResultUnit { pub dummy: u8 }
     ensures
         !final(w).ks_wlocked && !final(w).ks_rlocked, // [C12:dictionary-lock-released]
         // the name leaves the dictionary only together with tombstones for every meta row of its id
-        r is Ok && old(w).dict.dom().contains(name@) ==> final(w).dict == old(w).dict.remove(name@)
-            && final(w).tombs_for =~= old(w).tombs_for.push(old(w).dict[name@]), // [C12:deleted-name-and-its-meta-rows-go-together]
+        r is Ok && old(w).dict.dom().contains(name@) && old(w).dict[name@] == id ==> final(w).dict == old(w).dict.remove(name@)
+            && final(w).tombs_for =~= old(w).tombs_for.push(id), // [C12:deleted-name-and-its-meta-rows-go-together]
         r is Ok && !old(w).dict.dom().contains(name@) ==> final(w).dict == old(w).dict && final(w).tombs_for == old(w).tombs_for && final(w).meta_rows == old(w).meta_rows, // [C12:deleting-an-unknown-name-changes-nothing]
+        // the name is held by ANOTHER keyspace (created after the given one was deleted): nothing of it is touched
+        old(w).dict.dom().contains(name@) && old(w).dict[name@] != id ==> r is Ok && final(w).dict == old(w).dict && final(w).tombs_for == old(w).tombs_for
+            && final(w).meta_rows == old(w).meta_rows && final(w).visible == old(w).visible && final(w).version_changes == old(w).version_changes, // [C12:delete-through-a-stale-handle-leaves-the-keyspace-that-took-over-the-name]
         r is Err ==> final(w).dict == old(w).dict && final(w).tombs_for == old(w).tombs_for, // [C12:failed-delete-keeps-the-keyspace]
         final(w).visible >= old(w).visible,
 //@end
